@@ -255,11 +255,12 @@ Definition compile (fx : bool) (sched : option (list Q)) (il : list instr)
       end
   end.
 
-(* printing helper for the correspondence: reduced fractions *)
+(* printing helper for the correspondence: reduced fractions as (numerator, denominator) *)
+Definition qz (q : Q) : Z * Z := let r := Qred q in (Qnum r, Zpos (Qden r)).
 Definition red_out (o : option (list (nat * (list Q * list Q)))) :=
   match o with
   | None => None
-  | Some l => Some (map (fun x => (fst x, (map Qred (fst (snd x)), map Qred (snd (snd x))))) l)
+  | Some l => Some (map (fun x => (fst x, (map qz (fst (snd x)), map qz (snd (snd x))))) l)
   end.
 
 (* ---- reading a compiled channel as a function of time ------------------------------------- *)
